@@ -20,6 +20,7 @@ Step(e) ==
     [] e.ev = "call" -> MonCall(mon, e)
     [] e.ev = "ret" -> MonRet(mon, e)
     [] e.ev = "exc" -> MonExc(mon, e)
+    [] e.ev = "stuck" -> MonStuck(mon, e)
     [] OTHER -> mon
 
 Next ==
